@@ -279,7 +279,7 @@ def run_c11(tier, budget, rnd) -> StreamResult:
     combos = [("superadditive", "exploitability"), ("superadditive_cached", "l1_norm"),
               ("sam_apx_1", "linf_norm"), ("superadditive_cached", "l2_norm"), ("superadditive", "linf_norm")]
     shapes = [(3, None), (4, 2), (3, 2), (4, 3)] if quick else [(3, None), (3, 1), (3, 2), (3, 5), (4, 0), (4, 1), (4, 2), (4, 3)]
-    rounds = 1 if quick else 6
+    rounds = 3 if quick else 8
     chunk_pairs = set()
     case_no = 0
     for rd in range(rounds):
@@ -290,7 +290,7 @@ def run_c11(tier, budget, rnd) -> StreamResult:
             N = 2 ** n
             minimal = G.minimal_ids(n)
             games = hidden_games(n, rnd, tier)
-            name, table, in_class = games[(si + rd) % len(games)] if quick else rnd.choice(games)
+            name, table, in_class = games[(si + 2 * rd) % len(games)] if quick else rnd.choice(games)
             cls, gapname = combos[(si + rd) % len(combos)] if quick else rnd.choice(combos)
             extra = rnd.sample([c for c in range(N) if c not in minimal], rnd.choice([0, 0, 1, 2]))
             start = sorted(set(minimal) | set(extra))
@@ -314,7 +314,7 @@ def run_c11(tier, budget, rnd) -> StreamResult:
             script.add(f"srch seqs {nlist(unknown)} {'none' if k is None else k}", None, ctx0)
             seq_line = len(script) - 1
             ref = None
-            for procs in (procs_list if si < 2 or not quick else [1, 2, 5]):
+            for procs in (procs_list if (si < 2 and rd == 0) or not quick else [1, 2, 5]):
                 if not budget.ok():
                     break
                 g = ICG(n, BOUNDS[cls])
@@ -874,7 +874,7 @@ def run_c13(tier, budget, rnd) -> StreamResult:
     combos = [("superadditive", "exploitability"), ("superadditive_cached", "l1_norm"),
               ("superadditive_cached", "linf_norm"), ("sam_apx_1", "l2_norm")]
     shapes = [(3, 3, 1), (3, 2, 2), (4, 2, 4), (4, 3, 2), (3, 4, 2), (4, 4, 1), (3, 0, 2), (4, 1, 2)]
-    cases = shapes if quick else shapes * 5
+    cases = shapes * 2 if quick else shapes * 6
     for ci, (n, steps, reps) in enumerate(cases):
         if not budget.ok():
             res.notes.append("budget exhausted")
@@ -882,7 +882,7 @@ def run_c13(tier, budget, rnd) -> StreamResult:
         N = 2 ** n
         minimal = G.minimal_ids(n)
         explorable = [c for c in range(N) if c not in minimal]
-        cls, gapname = combos[ci % len(combos)] if quick else rnd.choice(combos)
+        cls, gapname = combos[(ci + ci // len(shapes)) % len(combos)] if quick else rnd.choice(combos)
         procs = [1, 2, 5][ci % 3]
         pool_games = [g for g in hidden_games(n, rnd, tier) + hidden_games(n, rnd, tier) if g[2] or ci % 4 == 3]
         chosen = [pool_games[i] for i in rnd.sample(range(len(pool_games)), reps + 2)]
